@@ -23,16 +23,26 @@ CONSTANTS Kinds,          \* transaction kinds
           NeedsWitness,   \* the kinds whose effect depends on CheckWitness(payer)
           Variants,       \* signer variants
           SameAddr,       \* variants whose raw-script hash equals the validator's address (PROBED from the code)
+          FeeKinds,       \* the kinds whose fee depends on the gas price table (global_params, refreshed per block)
+          ParamKind,      \* the kind that raises a gas price through the global_params contract (effective from the next block)
+          MaxParam,       \* bound on the number of parameter changes
+          MaxRestart,     \* bound on the number of restarts of node B
+          StaleGasTable,  \* named deviation: TRUE = the per-block gas table is whatever the PROCESS held before the block
+                          \* (process history); FALSE = design: it is reloaded from the committed state at the block's start
           MaxTx,          \* transactions per block
           MaxBlocks,
           LazyFromRaw     \* named deviation: TRUE = code as is (B hashes the raw script); FALSE = design intent (B derives
                           \* the addresses like the validator does)
 
-VARIABLES digestA, digestB, act
-vars == <<digestA, digestB, act>>
-view == <<digestA, digestB>>
+VARIABLES digestA, digestB,
+          param,      \* committed state: the gas price level set through global_params (0 = genesis value)
+          gA, gB,     \* process-global neovm.GAS_TABLE of each node's process (0 = compiled-in defaults)
+          nrestart,   \* restarts of node B so far
+          act
+vars == <<digestA, digestB, param, gA, gB, nrestart, act>>
+view == <<digestA, digestB, param, gA, gB, nrestart>>
 
-Tx == [kind : Kinds, sv : Variants]
+Tx == {t \in [kind : Kinds, sv : Variants] : t.kind = ParamKind => t.sv = CHOOSE v \in Variants : TRUE}
 RECURSIVE SeqsUpTo(_, _)
 SeqsUpTo(T, n) == IF n = 0 THEN {<<>>} ELSE LET P == SeqsUpTo(T, n - 1) IN P \cup {Append(s, t) : s \in {q \in P : Len(q) = n - 1}, t \in T}
 BlocksOf == SeqsUpTo(Tx, MaxTx) \ {<<>>}
@@ -40,17 +50,31 @@ BlocksOf == SeqsUpTo(Tx, MaxTx) \ {<<>>}
 \* the witness each node sees for the payer of tx
 WitnessA(tx) == TRUE
 WitnessB(tx) == (tx.sv \in SameAddr) \/ ~LazyFromRaw
-Outcome(tx, w) == IF tx.kind \in NeedsWitness /\ ~w THEN "failed" ELSE "applied"
-ExecA(b) == [i \in 1..Len(b) |-> Outcome(b[i], WitnessA(b[i]))]
-ExecB(b) == [i \in 1..Len(b) |-> Outcome(b[i], WitnessB(b[i]))]
+\* lvl: the gas price level of the table the node executes the block with
+Outcome(tx, w, lvl) == IF tx.kind \in NeedsWitness /\ ~w THEN <<"failed", 0>>
+                       ELSE IF tx.kind \in FeeKinds THEN <<"applied", lvl>> ELSE <<"applied", 0>>
+LevelOf(g) == IF StaleGasTable THEN g ELSE param       \* executeBlock: refreshGlobalParam, then the per-block snapshot
+ExecA(b) == [i \in 1..Len(b) |-> Outcome(b[i], WitnessA(b[i]), LevelOf(gA))]
+ExecB(b) == [i \in 1..Len(b) |-> Outcome(b[i], WitnessB(b[i]), LevelOf(gB))]
+HasParam(b) == \E i \in 1..Len(b) : b[i].kind = ParamKind
 
-Init == digestA = <<>> /\ digestB = <<>> /\ act = [name |-> "Init"]
+Init == /\ digestA = <<>> /\ digestB = <<>> /\ param = 0 /\ gA = 0 /\ gB = 0 /\ nrestart = 0
+        /\ act = [name |-> "Init"]
 Seal(b) == /\ Len(digestA) < MaxBlocks
            /\ digestA = digestB            \* a diverged syncing node refuses the next block (state root mismatch)
            /\ digestA' = Append(digestA, ExecA(b))
            /\ digestB' = Append(digestB, ExecB(b))
+           /\ (HasParam(b) => param < MaxParam)
+           /\ param' = IF HasParam(b) THEN param + 1 ELSE param        \* committed with the block, used from the next one
+           /\ gA' = param /\ gB' = param                                \* refreshGlobalParam loaded the committed values
+           /\ UNCHANGED nrestart
            /\ act' = [name |-> "Seal", block |-> b, agree |-> (ExecA(b) = ExecB(b)), outA |-> ExecA(b), outB |-> ExecB(b)]
-Next == \E b \in BlocksOf : Seal(b)
+\* node B's process exits and a fresh process reopens its data directory: process globals are back to the defaults
+RestartB == /\ nrestart < MaxRestart /\ Len(digestA) >= 1 /\ Len(digestA) < MaxBlocks /\ digestA = digestB
+            /\ gB' = 0 /\ nrestart' = nrestart + 1
+            /\ UNCHANGED <<digestA, digestB, param, gA>>
+            /\ act' = [name |-> "RestartB"]
+Next == (\E b \in BlocksOf : Seal(b)) \/ RestartB
 Spec == Init /\ [][Next]_vars
 
 Agreement == digestA = digestB
